@@ -227,26 +227,37 @@ pub(crate) fn coords_equal_exact<T: CoordinateScalar, const D: usize>(
 /// Check if two coordinate arrays are within epsilon distance.
 ///
 /// Returns true if Euclidean distance is strictly less than epsilon (distance < epsilon).
+///
+/// The comparison is carried out in units of `epsilon` (`sum(((a_i - b_i) / epsilon)^2) < 1`),
+/// so that neither `epsilon * epsilon` nor the squared distance can underflow to zero or
+/// overflow to infinity for very small or very large tolerances and coordinates.
 #[inline]
 pub(crate) fn coords_within_epsilon<T: CoordinateScalar, const D: usize>(
     a: &[T; D],
     b: &[T; D],
     epsilon: T,
 ) -> bool {
-    let dist_sq: T = a
+    // Nothing is at a distance strictly below a zero, negative or NaN tolerance.
+    if epsilon.partial_cmp(&T::zero()) != Some(std::cmp::Ordering::Greater) {
+        return false;
+    }
+
+    let scaled_dist_sq: T = a
         .iter()
         .zip(b.iter())
-        .map(|(x, y)| (*x - *y) * (*x - *y))
+        .map(|(x, y)| {
+            let r = (*x - *y) / epsilon;
+            r * r
+        })
         .fold(T::zero(), |acc, d| acc + d);
-    let epsilon_sq = epsilon * epsilon;
 
-    if cfg!(debug_assertions) && dist_sq == epsilon_sq {
+    if cfg!(debug_assertions) && scaled_dist_sq == T::one() {
         eprintln!(
             "[dedup_vertices_epsilon] distance equals epsilon; keeping point (strict < epsilon)"
         );
     }
 
-    dist_sq < epsilon_sq
+    scaled_dist_sq < T::one()
 }
 
 #[cfg(test)]
